@@ -81,6 +81,9 @@ def oracle_dir(runs):
     for r in runs:
         history.append(r["spec"])
         ident = dict(dir=r["dir"], run=r["run"], engine=r["engine"], optfsync=r["optfsync"], specs=list(history))
+        if r["start"] == "env-failure":
+            stats["env_failures"] = stats.get("env_failures", 0) + 1
+            continue
         if r["start"] not in ("ready", "died-at-startup-point"):
             fails.append(dict(name="norestart-d%d-r%d" % (r["dir"], r["run"]), case=dict(ident, start=r["start"], log=(r.get("log") or "")[-3000:],
                                                                                        listing=r.get("listing")),
@@ -191,9 +194,275 @@ def load_trace(path):
     return dirs
 
 
+
+# ----------------------------------------------------------------------------------------------
+# generation of the crash schedules (pure function of the seed)
+# ----------------------------------------------------------------------------------------------
+
+OPS_MAX = 70
+START_ONLY = ["rc.snap.chosen", "rs.remove.after", "rs.copy.after", "rc.restore.after", "rc.replay.after",
+              "pg.remove.before", "pg.remove.after"]
+START_ALSO = ["rd.begin", "rd.walsave.before", "rd.walsave.after", "ap.apply.before", "ps.snapfile.after",
+              "sn.savesnap.after", "ck.save.before"]
+FOLLOWER_ONLY = ["rd.savesnap.before", "rd.savesnap.after", "rd.applysnap.before", "rd.applysnap.after", "rd.release.after", "rc.snap.none"]
+
+
+def run_points(known):
+    return [p for p in known if p not in START_ONLY and p not in FOLLOWER_ONLY]
+
+
+def spec_for(rnd, p, kclass, stall=None):
+    if p in START_ONLY:
+        return "S:%s:1" % p
+    if p.startswith(("sn.", "ck.", "ps.")):
+        k = {"first": 1, "random": rnd.randint(1, 3), "last": 3}[kclass]
+    elif p.startswith("wl."):
+        k = 1
+    else:
+        k = {"first": rnd.randint(1, 3), "random": rnd.randint(1, OPS_MAX), "last": OPS_MAX - rnd.randint(0, 19)}[kclass]
+    if stall is None:
+        stall = rnd.choice([0, 0, 0, 5, 30, 120])
+    return "P:%s:%d:%d" % (p, k, stall)
+
+
+def gen_jobs(seed, ndirs, cycles, engines, known):
+    rnd = __import__("random").Random(seed)
+    pool = [(p, kc) for p in run_points(known) for kc in ("first", "random", "last")]
+    pool += [(p, "first") for p in START_ONLY] * 2
+    rnd.shuffle(pool)
+    jobs = []
+    pi = 0
+    for d in range(ndirs):
+        specs = ["X:%d:%d" % (rnd.randint(45, OPS_MAX - 1), rnd.randint(0, 7))]
+        while len(specs) < cycles:
+            c = rnd.random()
+            if c < 0.12:
+                specs.append("X:%d:%d" % (rnd.randint(1, OPS_MAX - 1), rnd.randint(0, 7)))
+            elif c < 0.2:
+                specs.append("S:%s:1" % rnd.choice(START_ALSO))
+            else:
+                p, kc = pool[pi % len(pool)]
+                pi += 1
+                specs.append(spec_for(rnd, p, kc))
+        jobs.append(dict(seed=rnd.randrange(1 << 40), engine=engines[d % len(engines)], optfsync=(d % 3 != 2), ops_max=OPS_MAX, specs=specs))
+    return jobs
+
+
+def gen_systematic(seed, engines, known, ks):
+    """thorough: every named point at every k of ks (and with a stall), two crashes per directory"""
+    rnd = __import__("random").Random(seed + 7)
+    jobs = []
+    d = 0
+    for p in run_points(known):
+        kk = [1, 2, 3] if p.startswith(("sn.", "ck.", "ps.")) else ([1] if p.startswith("wl.") else ks)
+        for k in kk:
+            specs = ["X:%d:%d" % (rnd.randint(25, 60), rnd.randint(0, 7)), "P:%s:%d:0" % (p, k), "P:%s:%d:%d" % (p, k, rnd.choice([5, 30, 120]))]
+            jobs.append(dict(seed=rnd.randrange(1 << 40), engine=engines[d % len(engines)], optfsync=(d % 3 != 2), ops_max=OPS_MAX, specs=specs))
+            d += 1
+    for p in START_ONLY + START_ALSO:
+        for rep in range(3):
+            specs = ["X:%d:%d" % (rnd.randint(45, 69), rnd.randint(0, 7)), "S:%s:1" % p, "S:%s:1" % p, "X:%d:0" % rnd.randint(1, 30)]
+            jobs.append(dict(seed=rnd.randrange(1 << 40), engine=engines[d % len(engines)], optfsync=(d % 3 != 2), ops_max=OPS_MAX, specs=specs))
+            d += 1
+    return jobs
+
+
+# ----------------------------------------------------------------------------------------------
+# driver
+# ----------------------------------------------------------------------------------------------
+
+def port_base():
+    # the task's range is 32000-33999, but everything from 32768 up is the kernel's ephemeral range
+    # (other processes' outgoing connections land there): stay below it
+    return 32000 + (os.getpid() % 6) * 125
+
+
+def run_harness(ctx, sub, jobs, workers):
+    d = os.path.join(ctx.run_dir, sub)
+    shutil.rmtree(d, ignore_errors=True)
+    os.makedirs(d)
+    rp = os.path.join(d, "jobs.json")
+    json.dump(dict(jobs=jobs), open(rp, "w"))
+    cmd = "%s -replay %s -out %s -workers %d -port %d" % (os.path.join(vlib.BIN, "crashnode"), rp, d, workers, port_base())
+    rc, out, dt = sh(cmd, cwd=d, timeout=3000)
+    if rc != 0:
+        return None, out
+    rc2, out2, dt2 = sh("%s < cases.tsv > model.out" % vlib.modelrun_path("Recover"), cwd=d, timeout=1200)
+    if rc2 != 0:
+        return None, out2
+    return d, ""
+
+
+def evaluate(d, jobs):
+    """oracle + bookkeeping over one harness output directory"""
+    dirs = load_trace(os.path.join(d, "trace.jsonl"))
+    fails, stats, hist = [], {}, {}
+    lives = 0
+    events = 0
+    samples = []
+    for di, runs in sorted(dirs.items()):
+        f, st = oracle_dir(runs)
+        for x in f:
+            x["case"]["job"] = jobs[di] if di < len(jobs) else None
+        fails += f
+        for k, v in st.items():
+            stats[k] = stats.get(k, 0) + v
+        for r in runs:
+            lives += 1
+            events += len(r.get("events") or [])
+            sp = r["spec"].split(":")
+            key = sp[0] + ":" + (sp[1] if sp[0] in ("P", "S") else "")
+            hist[key] = hist.get(key, 0) + 1
+            hist["death=" + r["death"]] = hist.get("death=" + r["death"], 0) + 1
+            hist["engine=" + r["engine"]] = hist.get("engine=" + r["engine"], 0) + 1
+        if len(samples) < 4 and runs:
+            r = runs[min(1, len(runs) - 1)]
+            samples.append(dict(dir=di, engine=r["engine"], optfsync=r["optfsync"], specs=[x["spec"] for x in runs],
+                                run=r["run"], start=r["start"], death=r["death"], writes=len(r.get("ops") or []),
+                                dump_head=(r.get("dump") or [])[:3], last_events=(r.get("events") or [])[-4:], listing=r.get("listing")))
+    return fails, stats, hist, lives, events, samples, dirs
+
+
+def signature_of(f):
+    return None
+
+
+def run(ctx):
+    quick = ctx.tier == "quick"
+    ok, out, _ = vlib.go_build("crashnode")
+    if not ok:
+        log("BUILD FAILED (harness crashnode):\n" + out[-3000:])
+        raise SystemExit(2)
+    vlib.regen_consts("Recover", "crashnode")
+    proofs_ok, info = ctx.check_proofs(make_targets=["Recover/Proofs.vo", "Properties/C06.vo"], gate_paths=["Recover", "Properties/C06"])
+    mok, mout, _ = vlib.model_build("Recover")
+    if not mok:
+        log("MODEL BUILD FAILED:\n" + mout[-3000:])
+        raise SystemExit(2)
+    # the crash points of the source tree must all be known to the acceptor (a new point = an unmodelled sub-step)
+    rc, pts, _ = sh("%s -points" % os.path.join(vlib.BIN, "crashnode"), cwd=vlib.BUILD, timeout=60)
+    src_pts = sorted(set(l.split()[1] for l in pts.splitlines() if l.startswith("POINT ")))
+    known = sorted(set(l.split()[1] for l in pts.splitlines() if l.startswith("KNOWN ")))
+    drv = open(os.path.join(vlib.COQ, "Recover", "extract", "driver.ml")).read()
+    unknown_pts = [p for p in src_pts if ('"%s"' % p) not in drv and p not in FOLLOWER_ONLY]
+    missing_pts = [p for p in known if p not in src_pts]
+
+    engines = ["pebble"] if quick else ["pebble", "mem", "rocksdb"]
+    workers = 8
+    batches = []   # (name, jobs)
+    if ctx.replay:
+        rp = json.load(open(ctx.replay))
+        job = (rp.get("case") or {}).get("job") or rp.get("job")
+        if job is None and rp.get("jobs"):
+            batches.append(("replay", rp["jobs"]))
+        elif job is not None:
+            batches.append(("replay", [job]))
+        else:
+            log("replay file has no job: " + ctx.replay)
+            raise SystemExit(2)
+    else:
+        corpus = []
+        for fp in sorted(__import__("glob").glob(os.path.join(vlib.VERIF, "corpus", "C06", "*.json"))):
+            corpus += json.load(open(fp))["jobs"]
+        batches.append(("corpus", corpus))
+        if quick:
+            batches.append(("fresh", gen_jobs(ctx.seed, 8, 4, ["pebble", "pebble", "mem", "rocksdb"], known)))
+        else:
+            batches.append(("fresh", gen_jobs(ctx.seed, 96, 9, engines, known)))
+            batches.append(("systematic", gen_systematic(ctx.seed, engines, known, [1, 2, 3, 5, 8, 13, 21, 34, 55, 69])))
+
+    all_fail, all_mism, stats_all, hist_all, samples = [], [], {}, {}, []
+    lives_total = events_total = cmp_total = 0
+    distinct = set()
+    inconclusive = 0
+    for name, jobs in batches:
+        if not jobs:
+            continue
+        d, err = run_harness(ctx, name, jobs, workers)
+        if d is None:
+            log("HARNESS RUN FAILED:\n" + err[-3000:])
+            raise SystemExit(2)
+        fails, stats, hist, lives, events, smp, dirs = evaluate(d, jobs)
+        mism, cnt = vlib.diff_outputs(os.path.join(d, "impl.out"), os.path.join(d, "model.out"))
+        # the last life of a directory has no later start to predict: its "rec=?" is not compared
+        real_mism = []
+        for (cid, a, b) in mism:
+            la = (a or "").split(" | ")
+            lb = (b or "").split(" | ")
+            if len(la) == len(lb) and all(x == y or (x.endswith("rec=?") and y.startswith(x[:-1])) for x, y in zip(la, lb)):
+                continue
+            bad = [(i, x, y) for i, (x, y) in enumerate(zip(la, lb)) if not (x == y or (x.endswith("rec=?") and y.startswith(x[:-1])))]
+            di = int(cid[1:])
+            real_mism.append((name + ":" + cid, "life %d: %s" % (bad[0][0], bad[0][1]) if bad else a, "life %d: %s" % (bad[0][0], bad[0][2]) if bad else b,
+                              jobs[di] if di < len(jobs) else None))
+        all_mism += real_mism
+        all_fail += fails
+        cmp_total += cnt
+        lives_total += lives
+        events_total += events
+        inconclusive += stats.get("env_failures", 0)
+        for k, v in stats.items():
+            stats_all[k] = stats_all.get(k, 0) + v
+        for k, v in hist.items():
+            hist_all[k] = hist_all.get(k, 0) + v
+        samples += smp
+        for di, runs in dirs.items():
+            for r in runs:
+                # non-trivial: a life that was verified after a crash and had writes in flight or acknowledged
+                if r["start"] == "ready" and (r.get("ops") or r["run"] > 0):
+                    distinct.add(vlib.case_hash(json.dumps([r["engine"], r["spec"], [o["cmd"] for o in (r.get("ops") or [])], r["death"]])))
+    if unknown_pts or missing_pts:
+        all_mism.append(("points", "source: " + ",".join(unknown_pts), "harness/model: " + ",".join(missing_pts), None))
+    if inconclusive:
+        ctx.notes.append("%d process starts failed for environmental reasons (port in use) and were retried; not judged" % inconclusive)
+
+    def search():
+        jobs = gen_jobs(ctx.seed + 1000003, 48, 8, ["pebble", "mem", "rocksdb"], known)
+        # aim at the diverging schedules as well
+        for m in all_mism[:6]:
+            if m[3]:
+                for rep in range(3):
+                    j = dict(m[3])
+                    j["seed"] = j["seed"] + rep + 1
+                    jobs.append(j)
+        d2, err = run_harness(ctx, "search", jobs, workers)
+        if d2 is None:
+            return []
+        fails, _, _, _, _, _, _ = evaluate(d2, jobs)
+        return fails
+
+    mm = [(m[0], m[1], m[2]) for m in all_mism]
+    vlib.standard_verdict(ctx, proofs_ok, mm, all_fail, search_fn=search,
+                          corr_name="Recover/Path.v as acceptor of the crash-point event logs of real kill/restart cycles "
+                                    "(every logged point an enabled sub-step; directory listing after each death; snapshot chosen and "
+                                    "log replayed by each restart)")
+    hist_all.update({"oracle." + k: v for k, v in stats_all.items()})
+    ctx.finish(dict(
+        traces_validated_against_impl=lives_total,
+        evaluations=stats_all.get("restarts_verified", 0),
+        distinct_nontrivial=len(distinct),
+        rule="a case is one life of a real single-replica data node (server.NewServer + InitKVNamespace, SnapCount 20, 8 KiB WAL segments, "
+             "KeepWAL = KeepBackup = 2) between a start and a death (named crash point at its k-th hit, with or without a stall; kill -9 from outside "
+             "while a write is in flight; crash point during the restart itself). traces_validated = lives whose event log the path model accepted and whose "
+             "directory listing and next restart it predicted; evaluations = restarts after which the full dump was compared with the acknowledged history. "
+             "Non-trivial = a life that served writes or recovered from a crash; distinct by hash of (engine, crash spec, write sequence, death).",
+        histogram=hist_all,
+        crash_point_events_accepted=events_total,
+        crash_points_in_source=len(src_pts),
+        mismatches=len(all_mism),
+        samples=samples[:5],
+    ), assumptions=[
+        "crash model of the theorems: process death (SIGKILL): everything handed to write(2) survives, buffered WAL records may be lost; "
+        "power loss is refuted separately for optimizedFsync (C06_powerloss_refuted)",
+        "single replica per raft group (the harness runs one); follower-only steps (incoming snapshot) are not reached and not modelled",
+        "a checkpoint named i holds the engine content of the moment the apply loop asked for it (C14's concern; pebble releases the apply loop by a timer)",
+        "raft hands out entries without gaps and never lowers the commit index (checked on every observed Ready by the acceptor)",
+    ])
+
+
 if __name__ == "__main__":
     import sys
     dirs = load_trace(sys.argv[1])
     for d, runs in sorted(dirs.items()):
-        f, s = oracle_dir(runs)
-        print(d, s, json.dumps(f, indent=1)[:3000] if f else "OK")
+        f, st = oracle_dir(runs)
+        print(d, st, json.dumps(f, indent=1)[:3000] if f else "OK")
